@@ -66,6 +66,17 @@ PROPS: dict = {
                     "(exact rationals) of non-empty query rows compared with the model; the assignment vector is also part of the "
                     "V_out comparison of every tree history; non-trivial = fit with more than one cluster"},
     "C20": {"suites": [monitor.suite_monitor], "rule": RULE_MON, "proof_modules": ["BBProps.C20", "BBProofs.Monitor", "BBModel.Monitor"]},
+    "C15": {"suites": [cli.suite_run, cli.suite_multiround],
+            "rule": "`bb run` through typer's CliRunner in-process (and as a subprocess of /venv/bin/bb when the memory monitor is on) over random "
+                    "combinations of: six merge x six refine criteria, refine-num 0-2, refine-rounds none/0-2, recluster rounds 0-2 with and "
+                    "without shuffle (the shuffles the command draws are captured and replayed), threshold changes of both signs, "
+                    "save-tree, save-centroids, overwrite x pre-populated output directory, copy vs symlink, packed vs unpacked, "
+                    "n-features (F in {8,13,16,64}), single file vs directory of 1-3 files; the model's plan for the options (driver command "
+                    "CLIPLAN) is executed call by call on the Python API and on the model; clusters.pkl, centroids, the reloaded bitbirch.pkl, "
+                    "config.json, input-fps/ and the directory listing are compared; `bb multiround` over the option space of S-MR plus "
+                    "processes 1-3, overwrite, save-tree, cleanup, compared file by file with the API in a fresh directory and with the model; "
+                    "non-trivial = run whose result has a multi-member cluster / more than one input file",
+            "proof_modules": ["BBProps.C15", "BBProofs.Cli", "BBProofs.CliMulti", "BBModel.Cli"]},
     "C16": {"suites": [files.suite_smiles, files.suite_split_merge, files.suite_fileseq, files.suite_info],
             "rule": "`bb fps-from-smiles` as a subprocess on generated SMILES lists (1-40 entries over 1-2 .smi files, invalid entries of three "
                     "kinds at random positions, --num-parts / --max-fps-per-file / neither, 1-8 processes, pack/no-pack, uint8/uint16/int64, "
